@@ -48,6 +48,36 @@ type opSpec struct {
 	kind   opKind
 	target int // index of the receiver among the values obtained so far (taken modulo their number)
 	arg    string
+	// opDecodeElem: how the text is spelled inside the element: cut at cut% of
+	// its runes, each half as escaped text (0), a CDATA section (1) or numeric
+	// character references (2)
+	cut, spellA, spellB int
+}
+
+func (o opSpec) spell(text string) string {
+	runes := []rune(text)
+	at := len(runes) * o.cut / 100
+	var sb strings.Builder
+	for i, run := range []string{string(runes[:at]), string(runes[at:])} {
+		kind := o.spellA
+		if i == 1 {
+			kind = o.spellB
+		}
+		if kind == 1 && strings.Contains(run, "]]>") {
+			kind = 0
+		}
+		switch kind {
+		case 1:
+			sb.WriteString("<![CDATA[" + run + "]]>")
+		case 2:
+			for _, r := range run {
+				fmt.Fprintf(&sb, "&#x%X;", r)
+			}
+		default:
+			_ = xml.EscapeText(&sb, []byte(run))
+		}
+	}
+	return sb.String()
 }
 
 type hval struct {
@@ -217,7 +247,7 @@ func (h *history) step(op opSpec) bool {
 			} else {
 				var sb strings.Builder
 				sb.WriteString("<jid>")
-				_ = xml.EscapeText(&sb, []byte(text))
+				sb.WriteString(op.spell(text))
 				sb.WriteString("</jid>")
 				d := xml.NewDecoder(strings.NewReader(sb.String()))
 				tok, err := d.Token()
@@ -360,6 +390,9 @@ func genOp(t *rapid.T, nvals int) opSpec {
 		op.kind = opDecodeAttr
 		if rapid.IntRange(0, 2).Draw(t, "elem") == 0 {
 			op.kind = opDecodeElem
+			op.cut = rapid.IntRange(0, 100).Draw(t, "spellcut")
+			op.spellA = rapid.IntRange(0, 2).Draw(t, "spellA")
+			op.spellB = rapid.IntRange(0, 2).Draw(t, "spellB")
 		}
 		op.arg = rapid.SampledFrom([]string{"same", "upper", "lower", "swaplast", "swaplast", "sigma", "first", "juliet@example.net/Balcony", "not a@jid@"}).Draw(t, "decode")
 	}
